@@ -1221,6 +1221,14 @@ func (t *tr) stmts(list []ast.Stmt, en env, k cont) string {
 				} else {
 					z, ok := zeroValues[t.w.render(vs.Type)]
 					if !ok {
+						if textTypes[t.w.render(vs.Type)] {
+							// a buffer for human-readable text (`var msg strings.Builder`): the text is not
+							// modelled; the variable is poisoned — harmless unless something translated uses it
+							en = en.copy()
+							en.m[n.Name] = evar{"POISON_" + n.Name, "Poison", en.depth}
+							t.notes = append(t.notes, "variable "+n.Name+" ("+t.w.render(vs.Type)+") holds message text, which is not modelled")
+							continue
+						}
 						return t.failf("zero value of %s", t.w.render(vs.Type))
 					}
 					v = z
@@ -1464,9 +1472,41 @@ func (t *tr) mutate(call *ast.CallExpr, en env) (string, env, bool) {
 	return fmt.Sprintf("let %s : %s := %s\n", bv.lean, leanType(bv.t), upd), en, true
 }
 
+// isTextExpr: a string literal, a call of fmt.Sprintf / fmt.Sprint, the variable itself, or a `+` of such
+func isTextExpr(e ast.Expr, self string) bool {
+	switch x := e.(type) {
+	case *ast.BasicLit:
+		return x.Kind == token.STRING
+	case *ast.Ident:
+		return x.Name == self
+	case *ast.ParenExpr:
+		return isTextExpr(x.X, self)
+	case *ast.BinaryExpr:
+		return x.Op == token.ADD && isTextExpr(x.X, self) && isTextExpr(x.Y, self)
+	case *ast.CallExpr:
+		if sel, ok := x.Fun.(*ast.SelectorExpr); ok && identName(sel.X) == "fmt" && strings.HasPrefix(sel.Sel.Name, "Sprint") {
+			return true
+		}
+	}
+	return false
+}
+
 var opAssign = map[token.Token]token.Token{token.ADD_ASSIGN: token.ADD, token.SUB_ASSIGN: token.SUB, token.MUL_ASSIGN: token.MUL}
 
 func (t *tr) assign0(s *ast.AssignStmt, en env) (string, env) {
+	if t.u.DropText && len(s.Lhs) == 1 && len(s.Rhs) == 1 && identName(s.Lhs[0]) != "" && isTextExpr(s.Rhs[0], identName(s.Lhs[0])) {
+		// human-readable text (the report of an invariant) is not modelled: a variable that is only
+		// ever given string literals, fmt.Sprintf results and concatenations of itself is dropped
+		n := identName(s.Lhs[0])
+		if s.Tok == token.DEFINE {
+			en = en.copy()
+			en.m[n] = evar{"POISON_" + n, "Poison", en.depth}
+			return "", en
+		}
+		if v, ok := en.m[n]; ok && v.t == "Poison" {
+			return "", en
+		}
+	}
 	if op, ok := opAssign[s.Tok]; ok && len(s.Lhs) == 1 && len(s.Rhs) == 1 && identName(s.Lhs[0]) != "" {
 		// `x op= e` on a plain variable is `x = x op e`
 		s = &ast.AssignStmt{Lhs: s.Lhs, TokPos: s.TokPos, Tok: token.ASSIGN,
@@ -1858,6 +1898,9 @@ func assignedOuter(body *ast.BlockStmt, en env, alias map[string]aliasSpec) []st
 	})
 	var out []string
 	for k := range set {
+		if v, ok := en.m[k]; ok && v.t == "Poison" {
+			continue // a dropped variable (message text) is not part of the state a loop or a join carries
+		}
 		out = append(out, k)
 	}
 	sort.Strings(out)
@@ -2112,7 +2155,7 @@ func (t *tr) rangeLoop(s *ast.RangeStmt, en env, next cont) string {
 	})
 	var frees []string
 	for n := range fi {
-		if v, ok := en.m[n]; ok && !isState[n] && v.t != "Keeper" && v.lean != "false" && v.lean != "true" {
+		if v, ok := en.m[n]; ok && !isState[n] && v.t != "Keeper" && v.t != "Poison" && v.lean != "false" && v.lean != "true" {
 			frees = append(frees, n)
 		}
 	}
